@@ -9,7 +9,7 @@ checks=("$id" "$@")
 wt=/tmp/wt_$id
 T=/tmp/seedtry_$id
 export GOFLAGS=-mod=mod GOPROXY=off GOSUMDB=off GOTOOLCHAIN=local GOCACHE=/verif/.cache/go-build
-rm -rf "$T"; cp -r /repo "$T"; rm -rf "$T/.git/worktrees"
+rm -rf "$T"; cp -r /repo "$T"; rm -rf "$T/.git/worktrees"; (cd "$T" && git clean -fdXq)
 cd "$T" || exit 2
 git apply "$wt/SEED/patch.diff" || { echo "RESULT $id: patch does not apply"; exit 1; }
 go build ./... || { echo "RESULT $id: build fails"; exit 1; }
